@@ -7,7 +7,8 @@
                                      holds the result is `error "OutOfFuel"`: Python would still be looping.  A theorem
                                      `whileFuel .. fuel s = .ok r` therefore says two things: the loop ends within `fuel` rounds,
                                      and its final state is `r`.
-  * `iterRange`, `iterWhile`       : the same loops over pure step functions (reference side of the bridge theorems)
+  * `forEnum body l start s`       : `for i, x in enumerate(l): s = body(i, x, s)` - recursion on the list; `pyIndex l i` : `l[i]`
+  * `iterRange`, `iterWhile`, `iterEnum` : the same loops over pure step functions (reference side of the bridge theorems)
   * `roundDiv a b`                 : Python 3 `round(a / b)` of the exact quotient (ties to even)
 -/
 import SarpyModel.Spec.PyPrelude
@@ -29,6 +30,23 @@ def iterRange {σ : Type} (b : Int → σ → σ) : Nat → Int → σ → σ
 def iterWhile {σ : Type} (c : σ → Bool) (b : σ → σ) : Nat → σ → σ
   | 0, s => s
   | fuel + 1, s => if c s then iterWhile c b fuel (b s) else s
+
+/-- `for i, x in enumerate(l): s = body(i, x, s)` (index counted from `i`) - recursion on the list -/
+def forEnum {σ τ : Type} (body : Int → τ → σ → Except String σ) : List τ → Int → σ → Except String σ
+  | [], _, s => pure s
+  | x :: rest, i, s => body i x s >>= forEnum body rest (i + 1)
+
+def iterEnum {σ τ : Type} (b : Int → τ → σ → σ) : List τ → Int → σ → σ
+  | [], _, s => s
+  | x :: rest, i, s => iterEnum b rest (i + 1) (b i x s)
+
+/-- Python `l[i]` for an int `i`: negative indices count from the end, out of range raises `IndexError` -/
+def pyIndex {τ : Type} (l : List τ) (i : Int) : Except String τ :=
+  let j := if i < 0 then i + l.length else i
+  if j < 0 then throw "IndexError" else
+    match l[j.toNat]? with
+    | some v => pure v
+    | none => throw "IndexError"
 
 /-- `int(round(a / b))`: nearest integer of the exact quotient, ties to the even neighbour -/
 def roundDiv (a b : Int) : Except String Int :=
